@@ -156,6 +156,23 @@ def run(ctx):
         if closes:
             lib.must_pass(ctx, '5k migrate-ends-with-a-checked-close', mg, closes, 'every successful return of migrate has closed the destination and looked at its background error')
     if mg:
+        # in place: the column files of the destination are moved over the source only after the destination was OPENED once more after
+        # its last commit - closing a handle leaves the log files that hold the last batches when their enactment fails (a close only
+        # reports what the workers stored), it is the next open that replays them or fails on them
+        mv = mg.call_sites('migration::move_column')
+        crs = mg.call_sites('db::Db::commit_raw') + [x for fb in fam if fb is not mg for x in mg.call_sites(fb.path) if fb.call_sites('db::Db::commit_raw')]
+        bad = None
+        for c in crs:
+            for m in mv:
+                if m in mg.reaches(c):
+                    w = mg.find_path(list(mg.succ(c)), {m}, removed=set(oc))
+                    if w:
+                        bad = bad or (c, m, w)
+        ctx.ob('5m0 in-place-anchors', 'anchor', mg.path, 'the in-place branch moves column files and commits into the destination before', len(mv) >= 2 and len(crs) >= 1, 'moves %s commits %s' % (mv, crs))
+        ctx.ob('5m destination-reopened-before-its-files-are-moved', 'K2-order', mg.path,
+               'between the last commit into the destination and the move of its column files over the source there is an open of the destination (which replays and removes its logs, or fails)',
+               bad is None, '' if bad is None else 'files moved after a commit without a re-open: ' + lib.short_path(mg, [bad[0]] + bad[2]))
+    if mg:
         # hashed keys are committed as they are and the files of unselected columns are copied as they are: an EXISTING destination
         # must have the salt of the source (setting to.salt only matters when the destination is created); the salt stored in the opened
         # destination is compared with the source salt and a mismatch is an error (F57)
